@@ -72,7 +72,7 @@ def schedules(ns, aligned_only=False):
     return res
 
 
-def h_chunk(f, ns, sched, start='zero', pastify=False, oracle='both', grid=None, grids=None, cover=False):
+def h_chunk(f, ns, sched, start='zero', pastify=False, oracle='both', grid=None, grids=None, cover=False, sem=None, io=None):
     f = T(f)
     vs = sorted(variables(f))
     op = f[0]
@@ -85,7 +85,11 @@ def h_chunk(f, ns, sched, start='zero', pastify=False, oracle='both', grid=None,
 
     def body(env):
         A = env.A
-        son = ct.make_spec('online~', 'out = ' + text(f), vs, pastify=pastify)
+        kw = {}
+        if sem:
+            from .c06 import _sem
+            kw = dict(io=io, semantics=_sem(sem))          # an interface-aware semantics: chunking must not matter there either
+        son = ct.make_spec('combined' if sem else 'online~', 'out = ' + text(f), vs, pastify=pastify, **kw)
         sigs = {v: ct.signal(env, v, n, start, grid=(grids[k] if grids else grid)) for k, (v, n) in enumerate(zip(vs, ns))}
         outs = []
         U = len(sched[0])
@@ -110,7 +114,7 @@ def h_chunk(f, ns, sched, start='zero', pastify=False, oracle='both', grid=None,
         got = refct.val(A, cat, tau)
         if oracle in ('both', 'offline'):
             # after pastify() the online output at tau is the offline robustness of the ORIGINAL formula at tau - h
-            soff = ct.make_spec('offline~', 'out = ' + text(f), vs)
+            soff = ct.make_spec('combined' if sem else 'offline~', 'out = ' + text(f), vs, **kw)
             off = soff.evaluate(*[[v, [list(p) for p in sigs[v]]] for v in vs])
             if not off:
                 res.append(('offline-empty', A.false))
@@ -281,6 +285,14 @@ def obligations(tier, rng):
             sc = [parts, parts] if two else [parts]
             out.append(ob('C05', 'chunk', 'const/%s/grid=0,1,2,3/%s' % (text(f), _sname(sc)), f=f, ns=[4, 4] if two else [4], sched=sc, oracle='offline', grid=[0, 1, 2, 3],
                           max_paths=40000, wall=900))
+    # interface-aware semantics (the predicate reports +-inf / 0): every chunking of three samples
+    for p in [('eq', X, K(1.0)), ('neq', X, K(1.0)), ('geq', X, K(1.0)), ('lt', X, K(1.0)), ('once_t', ('eq', X, K(1.0)), 0, 1), ('historically', ('neq', X, K(1.0)))]:
+        for sem_, io_ in [('output_robustness', {'x': 'input'}), ('input_robustness', {'x': 'output'}), ('input_vacuity', {'x': 'output'})]:
+            if quick and (sem_ != 'output_robustness' and p[0] not in ('eq', 'neq')):
+                continue
+            for sched in schedules([3] if quick else [4]):
+                out.append(ob('C05', 'chunk', 'ia/%s/%s/n=3/%s' % (sem_, text(p), _sname(sched)), f=p, ns=[3] if quick else [4], sched=sched, oracle='offline', sem=sem_, io=io_,
+                              max_paths=40000, wall=900))
     # three levels: a bounded past operator over a bounded past operator with a > 0 (what pastify() produces for a bounded-future
     # operator next to a sibling of larger horizon), alone and as the operand of a binary operation, six samples in two or more batches
     H1 = lambda g: ('historically_t', g, 0, 1)
